@@ -24,9 +24,8 @@ static int IOMODE = IO_MEM, DUMP = 0;
 typedef struct { long count; int printed; char sig[160]; } sigrec_t;
 typedef struct {
     long runs, judged, skipped, viol, deaths, hangs, distinct, probes, clean, restricted;
-    int samples_left, nsigs, probing; long noprobe_idx;
+    int samples_left, nsigs; long isolate_idx, harness_deaths;
     sigrec_t sigs[192];
-    char probe_cs[400];
     unsigned long long dh[1u << DH_BITS];
 } shared_t;
 static shared_t *G;
@@ -181,10 +180,12 @@ static void judge(verdict_t *V) {
     if (c == 2) VFAIL("values", "%s", why);
 }
 
-/* run the reader on TX and judge it; fd mode does it in a child of its own whose fd 0 is the file */
+/* run the reader on TX and judge it.  Inline (stdin replaced by an in-memory stream), or isolated: in a child of its own
+ * (so that a crash is a verdict, not the end of the sweep); with --io fd the child's fd 0 really is the file. */
+static int ISOLATE;                          /* force isolation (attribution probes, re-run of a case that killed the sweep child) */
 static void run_text(int rd, verdict_t *V) {
     memset(V, 0, sizeof *V);
-    if (IOMODE == IO_MEM) {
+    if (IOMODE == IO_MEM && !ISOLATE) {
         if (read_mem(rd)) { V->status = ST_HANG; strcpy(V->clause, "hang"); snprintf(V->detail, sizeof V->detail, "the reader asked for input beyond the end of the file and then kept spinning (no progress for %.1f ms of CPU)", HANG_CPU_S * 1e3); free_result(); return; }
         judge(V); free_result(); return;
     }
@@ -192,15 +193,21 @@ static void run_text(int rd, verdict_t *V) {
     if (vf_sh) vf_sh->where[0] = 0;
     pid_t pid = fork();
     if (pid == 0) {
-        signal(SIGALRM, vf_alarm); vf_install_fault_handlers(); alarm(3);
-        read_fd(rd); judge(VS); _exit(0);
+        vf_install_fault_handlers();
+        if (IOMODE == IO_FD) { signal(SIGALRM, vf_alarm); alarm(3); read_fd(rd); judge(VS); }
+        else {
+            signal(SIGVTALRM, vt_alarm); cpu_guard(CASE_CPU_S);
+            if (read_mem(rd)) { VS->status = ST_HANG; strcpy(VS->clause, "hang"); snprintf(VS->detail, sizeof VS->detail, "the reader asked for input beyond the end of the file and then kept spinning (no progress for %.1f ms of CPU)", HANG_CPU_S * 1e3); }
+            else judge(VS);
+        }
+        _exit(0);
     }
     int st = 0; waitpid(pid, &st, 0); vf_last_child = pid;
     if (WIFEXITED(st) && WEXITSTATUS(st) == 0 && VS->status >= 0) { *V = *VS; return; }
     int kind, code;
     if (WIFSIGNALED(st)) { kind = VF_SIGNAL; code = WTERMSIG(st); } else if (WEXITSTATUS(st) == 99) { kind = VF_ASAN; code = 99; }
     else if (WEXITSTATUS(st) == 97) { kind = VF_TIMEOUT; code = 97; } else if (WEXITSTATUS(st) == 98) { kind = VF_FAULT; code = 98; } else { kind = VF_EXIT; code = WEXITSTATUS(st); }
-    if (kind == VF_TIMEOUT) { V->status = ST_HANG; strcpy(V->clause, "hang"); snprintf(V->detail, sizeof V->detail, "the reader did not return within 3 s although stdin is a regular file at end-of-file"); return; }
+    if (kind == VF_TIMEOUT) { V->status = ST_HANG; strcpy(V->clause, "hang"); snprintf(V->detail, sizeof V->detail, IOMODE == IO_FD ? "the reader did not return within 3 s although stdin is a regular file at end-of-file" : "the reader did not return within %d s of CPU time", CASE_CPU_S); return; }
     V->status = ST_DEATH; strcpy(V->clause, "crash"); vf_crash_desc(kind, code, V->cd, sizeof V->cd);
     snprintf(V->detail, sizeof V->detail, "the reader process died (%s)", V->cd);
 }
